@@ -28,10 +28,10 @@ def run(ctx):
     cells, n = V.leg_g(ctx, "ProxyLoginGen", "ProxyLogin.Gen.cfg", "CELL", "cells.jsonl", workers=1)
     obs = os.path.join(ctx.scratch, "pl.ndjson")
     s = V.harness(ctx, ["pl", "-in", cells, "-out", obs, "-seed", ctx.seed, "-reps", 3 if quick else 12, "-workers", V.NCPU])
-    if s["extra"]["starts_completed_login"] < s["extra"]["starts"] // 2:
-        raise V.Machinery("driver could not complete a login for most flow starts (%s)" % s["extra"])
     viols, _, nl = V.leg_v(ctx, "ProxyLoginTrace", "ProxyLoginTrace.cfg", obs, strip=("conc",))
     handle(ctx, viols, obs)
+    if s["extra"]["starts_completed_login"] < s["extra"]["starts"] // 2 and not ctx.violations:
+        raise V.Machinery("driver could not complete a login for most flow starts (%s)" % s["extra"])
     from checks import sso
     e2e = sso.leg(ctx)
     lines = open(obs).read().splitlines()
